@@ -1,4 +1,5 @@
 import BigDec.Driver.C01
+import BigDec.Driver.C02
 import BigDec.Driver.C06
 import BigDec.Driver.C07
 import BigDec.Driver.C09
@@ -13,6 +14,7 @@ open BigDec BigDec.Proto
 def dispatch (prop op : String) (args : List String) (impl : String) : Verdict :=
   match prop with
   | "C01" => Driver.C01.handle op args impl
+  | "C02" => Driver.C02.handle op args impl
   | "C06" => Driver.C06.handle op args impl
   | "C07" => Driver.C07.handle op args impl
   | "C09" => Driver.C09.handle op args impl
